@@ -5,6 +5,7 @@ import Std.Data.String.ToNat
 import Skc.Model.Pipeline
 set_option linter.unusedSectionVars false
 set_option linter.unusedVariables false
+set_option linter.unusedSimpArgs false
 
 /-! Helper lemmas for C16, part 2: `unique_names` — the loop computes the closed form; the generated
 names are pairwise different when no once-occurring name is one of the generated ones. -/
@@ -50,16 +51,16 @@ theorem specRev_length (total : ν → Nat) (l : List ν) : (specRev sfx total l
   | nil => rfl
   | cons n t ih => simp [specRev, ih]
 
-theorem unamesLoop_spec (total : ν → Nat) (rev : List ν) (tbl : List (ν × Nat)) (acc : List ν)
+theorem unamesLoop_v0_spec (total : ν → Nat) (rev : List ν) (tbl : List (ν × Nat)) (acc : List ν)
     (h : ∀ n, tbl.lookup n = if 1 < total n then some (rev.count n) else none) :
-    unamesLoop sfx rev tbl acc = (specRev sfx total rev).reverse ++ acc := by
+    unamesLoop_v0 sfx rev tbl acc = (specRev sfx total rev).reverse ++ acc := by
   induction rev generalizing tbl acc with
-  | nil => simp [unamesLoop, specRev]
+  | nil => simp [unamesLoop_v0, specRev]
   | cons n t ih =>
     have hn := h n
     by_cases ht : 1 < total n
     · simp only [ht, if_true, List.count_cons_self] at hn
-      rw [unamesLoop, hn]
+      rw [unamesLoop_v0, hn]
       simp only
       rw [ih]
       · simp [specRev, ht]
@@ -72,7 +73,7 @@ theorem unamesLoop_spec (total : ν → Nat) (rev : List ν) (tbl : List (ν × 
           rw [h m]
           simp [hne]
     · simp only [ht, if_false] at hn
-      rw [unamesLoop, hn]
+      rw [unamesLoop_v0, hn]
       simp only
       rw [ih]
       · simp [specRev, ht]
@@ -83,17 +84,17 @@ theorem unamesLoop_spec (total : ν → Nat) (rev : List ν) (tbl : List (ν × 
         · have hne : ¬ n = m := fun e => hmn e.symm
           simp [hne]
 
-theorem uniqueNamesG_eq_specRev (names : List ν) :
-    uniqueNamesG sfx names = (specRev sfx (fun n => names.count n) names.reverse).reverse := by
-  unfold uniqueNamesG
-  rw [unamesLoop_spec sfx (fun n => names.count n)]
+theorem uniqueNamesG_v0_eq_specRev (names : List ν) :
+    uniqueNamesG_v0 sfx names = (specRev sfx (fun n => names.count n) names.reverse).reverse := by
+  unfold uniqueNamesG_v0
+  rw [unamesLoop_v0_spec sfx (fun n => names.count n)]
   · simp
   · intro n
     rw [lookup_nameCount]
     simp
 
-theorem uniqueNamesG_length (names : List ν) : (uniqueNamesG sfx names).length = names.length := by
-  rw [uniqueNamesG_eq_specRev]
+theorem uniqueNamesG_v0_length (names : List ν) : (uniqueNamesG_v0 sfx names).length = names.length := by
+  rw [uniqueNamesG_v0_eq_specRev]
   simp [specRev_length]
 
 theorem getElem_specRev (total : ν → Nat) (l : List ν) (j : Nat) (hj : j < l.length) :
@@ -112,12 +113,12 @@ theorem getElem_specRev (total : ν → Nat) (l : List ν) (j : Nat) (hj : j < l
 def occ (names : List ν) (i : Nat) (hi : i < names.length) : Nat := (names.take (i + 1)).count names[i]
 
 /-- element-wise closed form of `unique_names` -/
-theorem getElem_uniqueNamesG (names : List ν) (i : Nat) (hi : i < names.length) :
-    (uniqueNamesG sfx names)[i]'(by rw [uniqueNamesG_length]; exact hi) =
+theorem getElem_uniqueNamesG_v0 (names : List ν) (i : Nat) (hi : i < names.length) :
+    (uniqueNamesG_v0 sfx names)[i]'(by rw [uniqueNamesG_v0_length]; exact hi) =
       if 1 < names.count names[i] then sfx names[i] (occ names i hi) else names[i] := by
   have hlen : (specRev sfx (fun n => names.count n) names.reverse).length = names.length := by
     rw [specRev_length]; simp
-  simp only [uniqueNamesG_eq_specRev]
+  simp only [uniqueNamesG_v0_eq_specRev]
   rw [List.getElem_reverse]
   have hj : names.length - 1 - i < names.reverse.length := by simp; omega
   have key := getElem_specRev sfx (fun n => names.count n) names.reverse (names.length - 1 - i) hj
@@ -143,12 +144,12 @@ theorem getElem_uniqueNamesSpecG (names : List ν) (i : Nat) (hi : i < names.len
       if 1 < names.count names[i] then sfx names[i] (occ names i hi) else names[i] := by
   simp [uniqueNamesSpecG, occ]
 
-theorem uniqueNamesG_eq_spec (names : List ν) : uniqueNamesG sfx names = uniqueNamesSpecG sfx names := by
+theorem uniqueNamesG_v0_eq_spec (names : List ν) : uniqueNamesG_v0 sfx names = uniqueNamesSpecG sfx names := by
   apply List.ext_getElem
-  · rw [uniqueNamesG_length]; simp [uniqueNamesSpecG]
+  · rw [uniqueNamesG_v0_length]; simp [uniqueNamesSpecG]
   · intro i h1 h2
-    have hi : i < names.length := by rw [uniqueNamesG_length] at h1; exact h1
-    rw [getElem_uniqueNamesG sfx names i hi, getElem_uniqueNamesSpecG sfx names i hi]
+    have hi : i < names.length := by rw [uniqueNamesG_v0_length] at h1; exact h1
+    rw [getElem_uniqueNamesG_v0 sfx names i hi, getElem_uniqueNamesSpecG sfx names i hi]
 
 /-! ### occurrence numbers -/
 
@@ -203,14 +204,14 @@ instance (names : List ν) : Decidable (NoSuffixClash sfx names) :=
   decidable_of_iff _ (noSuffixClash_iff sfx names)
 
 /-- the generated names are pairwise different -/
-theorem uniqueNamesG_nodup (hinj : ∀ a b k m, sfx a k = sfx b m → a = b ∧ k = m) (names : List ν)
-    (h : NoSuffixClash sfx names) : (uniqueNamesG sfx names).Nodup := by
+theorem uniqueNamesG_v0_nodup (hinj : ∀ a b k m, sfx a k = sfx b m → a = b ∧ k = m) (names : List ν)
+    (h : NoSuffixClash sfx names) : (uniqueNamesG_v0 sfx names).Nodup := by
   rw [List.nodup_iff_injective_getElem]
   rintro ⟨i, hi'⟩ ⟨j, hj'⟩ heq
-  have hi : i < names.length := by rw [uniqueNamesG_length] at hi'; exact hi'
-  have hj : j < names.length := by rw [uniqueNamesG_length] at hj'; exact hj'
+  have hi : i < names.length := by rw [uniqueNamesG_v0_length] at hi'; exact hi'
+  have hj : j < names.length := by rw [uniqueNamesG_v0_length] at hj'; exact hj'
   simp only at heq
-  rw [getElem_uniqueNamesG sfx names i hi, getElem_uniqueNamesG sfx names j hj] at heq
+  rw [getElem_uniqueNamesG_v0 sfx names i hi, getElem_uniqueNamesG_v0 sfx names j hj] at heq
   have hmi : names[i] ∈ names := List.getElem_mem hi
   have hmj : names[j] ∈ names := List.getElem_mem hj
   have hci : 1 ≤ names.count names[i] := List.count_pos_iff.mpr hmi
@@ -242,17 +243,17 @@ theorem uniqueNamesG_nodup (hinj : ∀ a b k m, sfx a k = sfx b m → a = b ∧ 
   exact Fin.ext goal
 
 /-- a clash makes two generated names equal: the hypothesis is also necessary -/
-theorem uniqueNamesG_not_nodup (names : List ν) (i j : Nat) (hi : i < names.length) (hj : j < names.length)
+theorem uniqueNamesG_v0_not_nodup (names : List ν) (i j : Nat) (hi : i < names.length) (hj : j < names.length)
     (hi1 : 1 < names.count names[i]) (hj1 : names.count names[j] = 1)
-    (hc : sfx names[i] (occ names i hi) = names[j]) : ¬ (uniqueNamesG sfx names).Nodup := by
+    (hc : sfx names[i] (occ names i hi) = names[j]) : ¬ (uniqueNamesG_v0 sfx names).Nodup := by
   rw [List.nodup_iff_injective_getElem]
   intro hinj
-  have hi' : i < (uniqueNamesG sfx names).length := by rw [uniqueNamesG_length]; exact hi
-  have hj' : j < (uniqueNamesG sfx names).length := by rw [uniqueNamesG_length]; exact hj
+  have hi' : i < (uniqueNamesG_v0 sfx names).length := by rw [uniqueNamesG_v0_length]; exact hi
+  have hj' : j < (uniqueNamesG_v0 sfx names).length := by rw [uniqueNamesG_v0_length]; exact hj
   have : (⟨i, hi'⟩ : Fin _) = ⟨j, hj'⟩ := by
     apply hinj
     simp only
-    rw [getElem_uniqueNamesG sfx names i hi, getElem_uniqueNamesG sfx names j hj, if_pos hi1,
+    rw [getElem_uniqueNamesG_v0 sfx names i hi, getElem_uniqueNamesG_v0 sfx names j hj, if_pos hi1,
       if_neg (by omega), hc]
   have hij : i = j := by simpa using this
   subst hij
@@ -338,4 +339,265 @@ theorem dictGet_zip (ks : List String) (vs : List β) (hn : ks.Nodup) (hl : ks.l
         rw [this]
 
 end lookup
+end Skc.Pipeline
+
+namespace Skc.Pipeline
+
+/-! ### the repaired loop (the code as it is now): names are pairwise different for every input -/
+section fix
+variable {ν : Type} [DecidableEq ν] (sfx : ν → Nat → ν)
+
+theorem filter_length_lt {α : Type} (p q : α → Bool) (l : List α) (hpq : ∀ y, q y = true → p y = true)
+    (x : α) (hx : x ∈ l) (hp : p x = true) (hq : q x = false) : (l.filter q).length < (l.filter p).length := by
+  induction l with
+  | nil => simp at hx
+  | cons a t ih =>
+    have hle : (t.filter q).length ≤ (t.filter p).length := by
+      rw [← List.countP_eq_length_filter, ← List.countP_eq_length_filter]
+      exact List.countP_mono_left (fun y _ => hpq y)
+    rcases List.mem_cons.mp hx with rfl | hx'
+    · simp only [List.filter_cons, hp, hq, if_true, Bool.false_eq_true, if_false, List.length_cons]
+      omega
+    · have := ih hx'
+      simp only [List.filter_cons]
+      cases hqa : q a
+      · cases hpa : p a <;> simp <;> omega
+      · simp [hpq a hqa]; omega
+
+/-- the `while new in used` loop ends on a free name: every round makes a strictly larger name -/
+theorem freshen_not_mem (size : ν → Nat) (hgrow : ∀ x c, size x < size (sfx x c)) (used : List ν) (c : Nat)
+    (fuel : Nat) (x : ν) (hf : (used.filter fun y => decide (size x ≤ size y)).length < fuel) :
+    freshen sfx used c fuel x ∉ used := by
+  induction fuel generalizing x with
+  | zero => omega
+  | succ fuel ih =>
+    unfold freshen
+    by_cases hx : x ∈ used
+    · rw [if_pos hx]
+      apply ih
+      have := filter_length_lt (fun y => decide (size x ≤ size y)) (fun y => decide (size (sfx x c) ≤ size y)) used
+        (by
+          intro y hy
+          simp only [decide_eq_true_eq] at hy ⊢
+          have := hgrow x c; omega)
+        x hx (by simp) (by
+          have := hgrow x c
+          simp only [decide_eq_false_iff_not, not_le]; exact this)
+      omega
+    · rw [if_neg hx]; exact hx
+
+theorem unamesLoop_nodup (size : ν → Nat) (hgrow : ∀ x c, size x < size (sfx x c)) (total : ν → Nat)
+    (rev : List ν) (tbl : List (ν × Nat)) (used acc : List ν)
+    (htbl : ∀ n, tbl.lookup n = if 1 < total n then some (rev.count n) else none)
+    (hacc : acc.Nodup) (hsub : ∀ x ∈ acc, x ∈ used)
+    (hsingle : ∀ n ∈ rev, ¬ 1 < total n → n ∈ used ∧ n ∉ acc ∧ rev.count n ≤ 1) :
+    (unamesLoop sfx rev tbl used acc).Nodup := by
+  induction rev generalizing tbl used acc with
+  | nil => simpa [unamesLoop] using hacc
+  | cons n t ih =>
+    have hn := htbl n
+    by_cases ht : 1 < total n
+    · simp only [ht, if_true, List.count_cons_self] at hn
+      rw [unamesLoop, hn]
+      simp only
+      have hfresh : freshen sfx used (t.count n + 1) (used.length + 1) (sfx n (t.count n + 1)) ∉ used := by
+        apply freshen_not_mem sfx size hgrow
+        have := List.length_filter_le (fun y => decide (size (sfx n (t.count n + 1)) ≤ size y)) used
+        omega
+      apply ih
+      · intro m
+        by_cases hmn : m = n
+        · subst hmn; simp [ht]
+        · have hb : (m == n) = false := by simpa using hmn
+          have hne : ¬ n = m := fun e => hmn e.symm
+          simp only [List.lookup_cons, hb]
+          rw [htbl m]
+          simp [hne]
+      · exact List.nodup_cons.mpr ⟨fun h => hfresh (hsub _ h), hacc⟩
+      · intro x hx
+        rcases List.mem_cons.mp hx with rfl | hx
+        · simp
+        · exact List.mem_cons_of_mem _ (hsub x hx)
+      · intro m hm hm1
+        obtain ⟨h1, h2, h3⟩ := hsingle m (List.mem_cons_of_mem _ hm) hm1
+        have hmn : m ≠ n := fun e => hm1 (e ▸ ht)
+        refine ⟨List.mem_cons_of_mem _ h1, ?_, ?_⟩
+        · intro hmem
+          rcases List.mem_cons.mp hmem with rfl | hmem
+          · exact hfresh h1
+          · exact h2 hmem
+        · have : (n :: t).count m = t.count m := by simp [List.count_cons, Ne.symm hmn]
+          omega
+    · simp only [ht, if_false] at hn
+      rw [unamesLoop, hn]
+      simp only
+      obtain ⟨hn1, hn2, hn3⟩ := hsingle n (by simp) ht
+      have hnt : n ∉ t := by
+        intro hmem
+        have : 0 < t.count n := List.count_pos_iff.mpr hmem
+        simp only [List.count_cons_self] at hn3
+        omega
+      apply ih
+      · intro m
+        rw [htbl m]
+        by_cases hmn : m = n
+        · subst hmn; simp [ht]
+        · have hne : ¬ n = m := fun e => hmn e.symm
+          simp [hne]
+      · exact List.nodup_cons.mpr ⟨hn2, hacc⟩
+      · intro x hx
+        rcases List.mem_cons.mp hx with rfl | hx
+        · exact hn1
+        · exact hsub x hx
+      · intro m hm hm1
+        obtain ⟨h1, h2, h3⟩ := hsingle m (List.mem_cons_of_mem _ hm) hm1
+        have hmn : m ≠ n := fun e => hnt (e ▸ hm)
+        refine ⟨h1, ?_, ?_⟩
+        · intro hmem
+          rcases List.mem_cons.mp hmem with rfl | hmem
+          · exact hmn rfl
+          · exact h2 hmem
+        · have : (n :: t).count m = t.count m := by simp [List.count_cons, Ne.symm hmn]
+          omega
+
+/-- the repaired `unique_names` gives pairwise different names for EVERY list of names -/
+theorem uniqueNamesG_nodup (size : ν → Nat) (hgrow : ∀ x c, size x < size (sfx x c)) (names : List ν) :
+    (uniqueNamesG sfx names).Nodup := by
+  unfold uniqueNamesG
+  apply unamesLoop_nodup sfx size hgrow (fun n => names.count n)
+  · intro n
+    rw [lookup_nameCount]
+    simp
+  · exact List.nodup_nil
+  · intro x hx; simp at hx
+  · intro n hn h1
+    have hmem : n ∈ names := by simpa using hn
+    have hpos : 0 < names.count n := List.count_pos_iff.mpr hmem
+    have hc : names.count n = 1 := by omega
+    refine ⟨?_, by simp, by simp; omega⟩
+    simp [usedInit, List.mem_filter, hmem, hc]
+
+end fix
+
+theorem sfxStr_length (x : String) (c : Nat) : x.length < (sfxStr x c).length := by
+  simp only [sfxStr, String.length_append]
+  have : ("_" : String).length = 1 := by decide
+  omega
+
+end Skc.Pipeline
+
+namespace Skc.Pipeline
+section fixlen
+variable {ν : Type} [DecidableEq ν] (sfx : ν → Nat → ν)
+
+theorem unamesLoop_length (rev : List ν) (tbl : List (ν × Nat)) (used acc : List ν) :
+    (unamesLoop sfx rev tbl used acc).length = rev.length + acc.length := by
+  induction rev generalizing tbl used acc with
+  | nil => simp [unamesLoop]
+  | cons n t ih =>
+    rw [unamesLoop]
+    split
+    · rw [ih]; simp; omega
+    · rw [ih]; simp; omega
+
+theorem uniqueNamesG_length (names : List ν) : (uniqueNamesG sfx names).length = names.length := by
+  simp [uniqueNamesG, unamesLoop_length]
+
+end fixlen
+end Skc.Pipeline
+
+namespace Skc.Pipeline
+
+/-! ### without a clash the repaired loop is the old loop (the `while` never runs) -/
+section agree
+variable {ν : Type} [DecidableEq ν] (sfx : ν → Nat → ν)
+
+theorem freshen_of_not_mem (used : List ν) (c fuel : Nat) (x : ν) (hx : x ∉ used) :
+    freshen sfx used c (fuel + 1) x = x := by
+  simp [freshen, hx]
+
+theorem unamesLoop_eq_v0 (hinj : ∀ a b k m, sfx a k = sfx b m → a = b ∧ k = m) (total : ν → Nat) (used0 : List ν)
+    (rev : List ν) (tbl : List (ν × Nat)) (used acc : List ν)
+    (htbl : ∀ n, tbl.lookup n = if 1 < total n then some (rev.count n) else none)
+    (hused : ∀ y ∈ used, y ∈ used0 ∨ ∃ m j, y = sfx m j ∧ rev.count m < j)
+    (hcl : ∀ n ∈ rev, 1 < total n → ∀ k, 1 ≤ k → k ≤ rev.count n → sfx n k ∉ used0) :
+    unamesLoop sfx rev tbl used acc = unamesLoop_v0 sfx rev tbl acc := by
+  induction rev generalizing tbl used acc with
+  | nil => simp [unamesLoop, unamesLoop_v0]
+  | cons n t ih =>
+    have hn := htbl n
+    by_cases ht : 1 < total n
+    · simp only [ht, if_true, List.count_cons_self] at hn
+      rw [unamesLoop, unamesLoop_v0, hn]
+      simp only
+      have hfree : sfx n (t.count n + 1) ∉ used := by
+        intro hmem
+        rcases hused _ hmem with h0 | ⟨m, j, hmj, hlt⟩
+        · exact hcl n (by simp) ht (t.count n + 1) (by omega) (by simp) h0
+        · obtain ⟨e1, e2⟩ := hinj _ _ _ _ hmj
+          subst e1
+          simp only [List.count_cons_self] at hlt
+          omega
+      rw [freshen_of_not_mem sfx used _ _ _ hfree]
+      apply ih
+      · intro m
+        by_cases hmn : m = n
+        · subst hmn; simp [ht]
+        · have hb : (m == n) = false := by simpa using hmn
+          have hne : ¬ n = m := fun e => hmn e.symm
+          simp only [List.lookup_cons, hb]
+          rw [htbl m]
+          simp [hne]
+      · intro y hy
+        rcases List.mem_cons.mp hy with rfl | hy
+        · exact Or.inr ⟨n, t.count n + 1, rfl, by omega⟩
+        · rcases hused y hy with h0 | ⟨m, j, hmj, hlt⟩
+          · exact Or.inl h0
+          · refine Or.inr ⟨m, j, hmj, ?_⟩
+            have : t.count m ≤ (n :: t).count m := by
+              rw [List.count_cons]; omega
+            omega
+      · intro m hm hm1 k hk1 hk2
+        have : t.count m ≤ (n :: t).count m := by
+          rw [List.count_cons]; omega
+        exact hcl m (List.mem_cons_of_mem _ hm) hm1 k hk1 (by omega)
+    · simp only [ht, if_false] at hn
+      rw [unamesLoop, unamesLoop_v0, hn]
+      simp only
+      apply ih
+      · intro m
+        rw [htbl m]
+        by_cases hmn : m = n
+        · subst hmn; simp [ht]
+        · have hne : ¬ n = m := fun e => hmn e.symm
+          simp [hne]
+      · intro y hy
+        rcases hused y hy with h0 | ⟨m, j, hmj, hlt⟩
+        · exact Or.inl h0
+        · refine Or.inr ⟨m, j, hmj, ?_⟩
+          have : t.count m ≤ (n :: t).count m := by
+            rw [List.count_cons]; omega
+          omega
+      · intro m hm hm1 k hk1 hk2
+        have : t.count m ≤ (n :: t).count m := by
+          rw [List.count_cons]; omega
+        exact hcl m (List.mem_cons_of_mem _ hm) hm1 k hk1 (by omega)
+
+/-- under `NoSuffixClash` the fix changes nothing -/
+theorem uniqueNamesG_eq_v0 (hinj : ∀ a b k m, sfx a k = sfx b m → a = b ∧ k = m) (names : List ν)
+    (h : NoSuffixClash sfx names) : uniqueNamesG sfx names = uniqueNamesG_v0 sfx names := by
+  unfold uniqueNamesG uniqueNamesG_v0
+  apply unamesLoop_eq_v0 sfx hinj (fun n => names.count n) (usedInit names)
+  · intro n
+    rw [lookup_nameCount]
+    simp
+  · intro y hy; exact Or.inl hy
+  · intro n hn h1 k hk1 hk2 hmem
+    have hn' : n ∈ names := by simpa using hn
+    rw [List.count_reverse] at hk2
+    have := h n hn' h1 k hk1 hk2
+    simp only [usedInit, List.mem_filter, beq_iff_eq] at hmem
+    exact this hmem.2
+
+end agree
 end Skc.Pipeline
